@@ -166,9 +166,9 @@ PROPERTIES = {
         "verus_units": ["leaves"],
         "kani": ["parse::parse_u8_hex", "parse::parse_u8_oct", "parse::parse_u8_bin", "parse::parse_i8_hex", "parse::parse_error_kinds",
                  "parse::parse_u8_dec", "parse::parse_i8_dec"],
-        "kani_thorough": ["parse::parse_u8_dec_long", "parse::parse_i8_dec_long"],
+        "kani_thorough": [{"harness": "parse::parse_u8_dec_long", "timeout": 9000}, {"harness": "parse::parse_i8_dec_long", "timeout": 9000}],
         "explanation": "BOUNDED: the real from_str_u8 / from_str_i8 (run-time radix and layout through the hook wrappers) on EVERY byte string "
-                       "of at most 9 bytes (radix 2, 8, 16) resp. 6 bytes quick / 8 bytes thorough (radix 10), all nine 8-bit layouts symbolic, "
+                       "of at most 9 bytes (radix 2, 8, 16) resp. 6 bytes quick / 7 bytes thorough (radix 10), all nine 8-bit layouts symbolic, "
                        "against the exactly rounded value of the literal (ties to even), the overflow flag, the wrapped value and the error "
                        "classes of a grammar written independently of the tokeniser; complete within the bound, loops closed by unwinding assertions",
         "bounded_parts": ["string length <= 9 (6 / 8 for decimal); 8-bit types only; wider types share parse_bounds and the generic digit loops "
